@@ -116,6 +116,8 @@ type MStream struct {
 	cErr, sErr error // abrupt failure seen by client / server side
 	Broken     bool
 
+	negReq, negResp bool // the endpoints saw the negotiate key in request md / response headers
+
 	// statistics for oracles
 	C2SSent, S2CSent, C2SRecv, S2CRecv int
 }
@@ -156,7 +158,8 @@ func (n *Net) NewStream(ctx context.Context, desc *grpc.StreamDesc, method strin
 		md = metadata.MD{}
 	}
 	sctx, scancel := context.WithCancel(metadata.NewIncomingContext(base, md))
-	ms := &MStream{net: n, ID: id, Name: fmt.Sprintf("%s%d", n.Label, id), Method: method,
+	_, negReq := md["grpctunnel-negotiate"]
+	ms := &MStream{negReq: negReq, net: n, ID: id, Name: fmt.Sprintf("%s%d", n.Label, id), Method: method,
 		cctx: cctx, ccancel: ccancel, sctx: sctx, scancel: scancel}
 	n.Streams = append(n.Streams, ms)
 	n.bump()
@@ -392,6 +395,7 @@ func (s *mServerStream) sendHeaderLocked() {
 		h = metadata.MD{}
 	}
 	s.hdr = h
+	_, s.negResp = h["grpctunnel-negotiate"]
 	s.net.W.Tap.note(s.MStream, "s.header")
 }
 
